@@ -290,9 +290,10 @@ def c11(tier, seed):
     res = crash_check("C11", tier, seed, mc=lambda res, q: (
         commit_mc(res, "Commit(SyncOn)", inv=["TypeOK", "Durable", "RecoverTotal"], consts=None if q else {"MaxTx": "4", "MaxRecs": "3", "Cap": "3"}),
         commit_mc(res, "Commit+SyncOncePerTx", consts={"Sw": '{"SyncOncePerTx"}'}, inv=["Durable"], expect="Durable")),
-        proto=[("mixedkv", ["-mode", "keyonly"]), ("failkv", ["-mode", "keyval"])], fams=
+        proto=[("mixedkv", ["-mode", "keyonly"]), ("failkv", ["-mode", "keyval"]), ("mergekv", ["-mode", "keyval"])], fams=
                       [("powerkv", ["-mode", "keyval", "-rw", "fileio"]), ("powerkv", ["-mode", "keyonly", "-rw", "mmap"]),
-                       ("powerkv", ["-mode", "keyonly", "-rw", "fileio"]), ("power", ["-rw", "fileio"]), ("power", ["-rw", "mmap"])],
+                       ("powerkv", ["-mode", "keyonly", "-rw", "fileio"]), ("power", ["-rw", "fileio"]), ("power", ["-rw", "mmap"]),
+                       ("powermergekv", ["-mode", "keyval", "-steps", "20"])],
                       what="after a power loss with SyncEnable Open failed, lost a returned transaction or showed part of an unfinished one",
                       desc="SyncEnable workloads with power lost at every file-mutation point: files revert to their last sync, the unsynced tail dropped or torn, unsynced creations and removals kept or undone")
     res.assumptions += ["a sync of a file also makes its directory entry durable (the property's stated assumption)",
